@@ -44,6 +44,9 @@ func init() {
 	families["big_dict_merge"] = genBigDictMerge
 	families["block_drop"] = genBlockDrop
 	families["stat_edges"] = genStatEdges
+	families["midsize"] = genMidsize
+	families["bitmap_edges"] = genBitmapEdges
+	families["conc_big"] = genConcBig
 	families["big_freq"] = genBigFreq
 	families["giant_posting"] = genGiantPosting
 	families["pool_vocab"] = genPoolVocab
